@@ -12,7 +12,7 @@
     fuel), run on the encoded table over the default scopes, returns success, and the sorted namespace view of the
     resulting tree (Aml/View.v) IS the namespace [ns] the specification assigns to the program (Aml/Grammar.v). *)
 From Coq Require Import NArith List.
-From FF Require Import Aml.Grammar Aml.WfProgram Aml.ParserFragF0Final Aml.ParserFragF1Final Aml.ParserFragF3Final Aml.ParserFragF4Final Aml.ParserFragF5Final Aml.ParserFragT2Final.
+From FF Require Import Aml.Grammar Aml.WfProgram Aml.ParserFragF0Final Aml.ParserFragF1Final Aml.ParserFragF3Final Aml.ParserFragF4Final Aml.ParserFragF5Final Aml.ParserFragF6Final Aml.ParserFragT2Final.
 Import ListNotations.
 Local Open Scope N_scope.
 
@@ -108,3 +108,15 @@ Theorem C11_parse_encode_partial_T2 : forall tables,
   wf_program tables = true -> in_fragment_T2 tables = true -> parse_encode_statement tables.
 Proof. exact parse_encode_T2. Qed.
 Print Assumptions C11_parse_encode_partial_T2.
+
+(** Fragment F6 ([in_fragment_F6], a boolean) = F5 + Name declarations whose value is a string: [Name(SEG, "chars")] with
+    characters 0x01 .. 0x7f (possibly none), single-NameSeg name, anywhere an item of F5 may stand.  Production added
+    to F5: DataRefObject = String (StringPrefix AsciiCharList NullChar).  The parser stores table index and byte range of
+    the string, not the bytes; the proof follows the range through connectNamedObjArgs (the string object becomes the
+    argument of the Name) and reads it back from the table image in the namespace view (all view lemmas now carry the
+    position of every item in its table).  Not in the fragment: Buffer / Package values (Buffer is parsed by
+    parseDeferredBlocks), strings as arguments of other objects. *)
+Theorem C11_parse_encode_partial_F6 : forall tables,
+  wf_program tables = true -> in_fragment_F6 tables = true -> parse_encode_statement tables.
+Proof. exact parse_encode_F6. Qed.
+Print Assumptions C11_parse_encode_partial_F6.
